@@ -832,6 +832,7 @@ func (v *Verifier) VerifyFunc(cs *ContractSet, spec *FuncSpec) (res *FuncResult)
 			last := r.obligs[len(r.obligs)-1]
 			last.Env = penv
 			last.Spec = spec
+			last.Group = fmt.Sprintf("%s#ret%d", fname, r.retPaths)
 		}
 	}
 	r.execBlock(st, fr, fn.Blocks[0], nil)
